@@ -1,11 +1,11 @@
 (* C13 -- the wire-level link: the oracle the driver runs accepts the model's observation
    on every valid case.  (Flat multi-syncers: Multi.v; combinator programs: Comb.v; the
-   writers: Writers.v; Lock under every schedule: Mutex.v.) *)
+   writers: Writers.v, BwsFault.v; Lock under every schedule: Mutex.v.) *)
 From Coq Require Import List ZArith Bool Lia ZifyBool.
 From Coq.Strings Require Import Byte.
 Import ListNotations.
 From Zap Require Import Base.Wire C13.Model.
-From Zap Require Export C13.Multi C13.Comb C13.Writers C13.Mutex C13.Handles.
+From Zap Require Export C13.Multi C13.Comb C13.Writers C13.Mutex C13.Handles C13.BwsFault.
 Local Open Scope Z_scope.
 
 Lemma sx_eqb_refl : forall x, sx_eqb x x = true.
@@ -80,6 +80,7 @@ Proof.
   - destruct (kind i =? 2).
     + destruct (wkind i =? 0); [now apply wire_stdlog|].
       destruct (wkind i =? 1); [apply wire_testing|].
-      destruct (wkind i =? 2); [apply wire_zapio|]. now apply wire_bws.
+      destruct (wkind i =? 2); [apply wire_zapio|].
+      destruct (wkind i =? 3); [now apply wire_bws|now apply wire_bwsf].
     + now apply wire_lock.
 Qed.
